@@ -186,7 +186,7 @@ func main() {
 		jobs = append(jobs, job{textgen.Render([]*textgen.Def{d}, textgen.Layouts[0]), d.Label, "canonical", "single"})
 	}
 	// sequences: the formatter carries state between definitions (pending readonly, blank line before next record)
-	seqLayouts := []textgen.Layout{textgen.Layouts[0], textgen.Layouts[2], textgen.Layouts[4], textgen.Layouts[9]}
+	seqLayouts := []textgen.Layout{textgen.Layouts[0], textgen.Layouts[2], textgen.Layouts[4], textgen.Layouts[9], textgen.Layouts[len(textgen.Layouts)-1]}
 	if run.Thorough() {
 		seqLayouts = textgen.Layouts
 	}
@@ -216,6 +216,22 @@ func main() {
 		jobs = append(jobs, job{base + "/* trailing block */\n", d.Label, "canonical", "block-comment-after"})
 		jobs = append(jobs, job{strings.Replace(base, ";\n", "; // eol comment\n", 1), d.Label, "canonical", "eol-comment"})
 		jobs = append(jobs, job{strings.Replace(base, ";\n", "; /* eol block */\n", 1), d.Label, "canonical", "eol-block-comment"})
+	}
+	// comments between an attribute and what it annotates, whitespace after comments, odd line ends inside comments
+	for _, d := range a0 {
+		base := textgen.Render([]*textgen.Def{d}, textgen.Layouts[0])
+		for _, attr := range []string{"[flags]\n", ")]\n"} {
+			if i := strings.Index(base, attr); i >= 0 {
+				cut := i + len(attr)
+				jobs = append(jobs, job{base[:cut] + "// between attribute and definition\n" + base[cut:], d.Label, "canonical", "comment-after-attribute"})
+				jobs = append(jobs, job{base[:cut] + "/* between attribute and definition */\n" + base[cut:], d.Label, "canonical", "block-comment-after-attribute"})
+			}
+		}
+		jobs = append(jobs, job{strings.Replace(base, ";\n", "; /* eol block */\t\n/* next */\n", 1), d.Label, "canonical", "eol-block-comment-tab"})
+		jobs = append(jobs, job{strings.Replace(base, ";\n", "; // eol comment \t \n", 1), d.Label, "canonical", "eol-comment-trailing-blanks"})
+		jobs = append(jobs, job{"// leading comment\r\r\n" + base, d.Label, "canonical", "comment-cr-cr-lf"})
+		jobs = append(jobs, job{"/* block\r\r\ncomment */\n" + base, d.Label, "canonical", "block-comment-cr-cr-lf"})
+		jobs = append(jobs, job{base + "\n\n\n// far trailing comment", d.Label, "canonical", "comment-at-eof-no-newline"})
 	}
 	// the repository's own schemas
 	dir := vlib.RepoDir() + "/testdata/base"
